@@ -234,5 +234,46 @@ def rule_x5(repo):
     return res
 
 
+def rule_x6(repo):
+    """A clause forces a literal when exactly one of its *literals* is unassigned and all others are false.
+    The collection whose size decides this must hold literals (variable and sign): keyed by variable alone, a
+    tautological clause x | ~x | <false literals> counts as a unit clause and forces x, so models are lost and
+    satisfiable sets are reported unsatisfiable."""
+    res = RuleResult('C15.X6', 'unit propagation counts unassigned literals, not unassigned variables', floor=1)
+    f = _nested(repo, 'unit_propagate')
+    sized = set()
+    for n in ast.walk(f.node):
+        cp = compare_parts(n) if isinstance(n, ast.Compare) else None
+        if cp and isinstance(cp[1], ast.Call) and call_name(cp[1]) == 'len' and cp[1].args and isinstance(cp[1].args[0], ast.Name) and \
+                isinstance(cp[2], ast.Constant) and cp[2].value in (0, 1):
+            sized.add(cp[1].args[0].id)
+    need(sized, 'unit_propagate: no test `len(<unassigned>) == 0 / 1`')
+    loops = [n for n in ast.walk(f.node) if isinstance(n, ast.For) and isinstance(n.target, ast.Name) and is_name(n.iter, 'clause')]
+    need(loops, 'unit_propagate: `for lit in clause` not found')
+    lit = loops[0].target.id
+    parts = set()
+    for n in ast.walk(loops[0]):
+        if isinstance(n, ast.Assign) and isinstance(n.targets[0], ast.Tuple) and is_name(n.value, lit):
+            parts = {e.id for e in n.targets[0].elts if isinstance(e, ast.Name)}
+    for c in sorted(sized):
+        fills, bad = [], []
+        for n in ast.walk(f.node):
+            if isinstance(n, ast.Call) and isinstance(n.func, ast.Attribute) and is_name(n.func.value, c) and n.func.attr in ('append', 'add', 'setdefault', 'update', 'insert'):
+                fills.append(n)
+                whole = len(n.args) == 1 and (is_name(n.args[0], lit) or (isinstance(n.args[0], ast.Tuple) and
+                                                                           {getattr(e, 'id', None) for e in n.args[0].elts} == parts and len(parts) == 2))
+                if n.func.attr in ('setdefault', 'update') or not whole:
+                    bad.append(n)
+            if isinstance(n, ast.Assign) and isinstance(n.targets[0], ast.Subscript) and is_name(n.targets[0].value, c):
+                fills.append(n)
+                bad.append(n)
+        need(fills, 'unit_propagate: nothing is added to `%s`' % c)
+        res.add('%s :: solve_cnf.unit_propagate :: counts-literals(%s)' % (SAT, c), not bad,
+                'every unassigned literal is added as a whole' if not bad else
+                '`%s` files the unassigned literals under the variable name: x and ~x become one entry, and the tautological clause '
+                'x | ~x | (false literals) is taken for a unit clause' % src(bad[0], 50), '%s:%d' % (SAT, fills[0].lineno))
+    return res
+
+
 def rules(repo):
-    return [rule_x1(repo), rule_x2(repo), rule_x3(repo), rule_x4(repo), rule_x5(repo)]
+    return [rule_x1(repo), rule_x2(repo), rule_x3(repo), rule_x4(repo), rule_x5(repo), rule_x6(repo)]
